@@ -18,7 +18,8 @@ Record case := {
   k_kv1 : list (nat * nat * nat * nat); k_kv2 : list (nat * nat * nat * nat);   (* store, namespace, #pairs, digest id *)
   k_q1 : list nat; k_q2 : list nat;                   (* sampled queries (balances, sequences, eth_call, code, storage) *)
   k_probe : list (Z * nat) * list (Z * nat);          (* imported chain: pending rewards before / after one more allocation *)
-  k_dg_p0 : nat;                                      (* x/devgas params of the chain's own genesis *)
+  k_dg0 : devgas_st;                                  (* x/devgas registry the log starts from: the chain's own genesis ([dg_genesis p]) for the
+                                                         first generation; for a chain started from an export, its registry (no message is sent there) *)
   k_dg_hist : list (dg_op * bool)                     (* log of wasm instantiations / x/devgas handler calls with their success *)
 }.
 
@@ -33,8 +34,8 @@ Definition dg_hist_ok (c : cfg) (k : case) : bool :=
   (* the tables of this case meet the hypothesis [funs_dg_ok] of the history theorems on every key / params id used *)
   funs_dg_okb (k_F k)
     (flat_map (fun e => dg_op_keys (fst e)) (k_dg_hist k))
-    (k_dg_p0 k :: dg_params (a_devgas (k_s1 k)) :: flat_map (fun e => dg_op_params (fst e)) (k_dg_hist k)) &&
-  match dg_replay (c_dg_upd c) (k_F k) (k_dg_hist k) ([], dg_genesis (k_dg_p0 k)) with
+    (dg_params (k_dg0 k) :: dg_params (a_devgas (k_s1 k)) :: flat_map (fun e => dg_op_params (fst e)) (k_dg_hist k)) &&
+  match dg_replay (c_dg_upd c) (k_F k) (k_dg_hist k) ([], k_dg0 k) with
   | Some ws => eqb_of devgas_st_dec (snd ws) (a_devgas (k_s1 k))
   | None => false
   end.
